@@ -1,6 +1,7 @@
 import inspect
 import math
 import random
+import sys
 import threading
 import time
 from collections import deque
@@ -181,10 +182,14 @@ def _exp_cap(base_s: float, factor: float, attempt: int, max_s: float) -> float:
     try:
         log_cap = math.log(base_s) + attempt * math.log(factor)
     except OverflowError:
-        return max_s
+        return min(max_s, sys.float_info.max)
     if max_s <= 0.0 or log_cap >= math.log(max_s):
         return max_s
-    return min(max_s, math.exp(log_cap))
+    try:
+        return min(max_s, math.exp(log_cap))
+    except OverflowError:
+        # Only reachable with max_s=inf ("no cap"): saturate at the largest finite float.
+        return sys.float_info.max
 
 
 def decorrelated_jitter(base_s: float = 0.25, max_s: float = 30.0) -> StrategyFn:
@@ -198,7 +203,9 @@ def decorrelated_jitter(base_s: float = 0.25, max_s: float = 30.0) -> StrategyFn
 
     def f(attempt: int, klass: ErrorClass, prev_sleep: float | None) -> float:
         prev = prev_sleep or base_s
-        return min(max_s, random.uniform(base_s, prev * 3.0))
+        # Keep the upper bound finite so that max_s=inf ("no cap") cannot yield inf or nan.
+        upper = min(prev * 3.0, sys.float_info.max)
+        return min(max_s, random.uniform(base_s, upper))
 
     return f
 
